@@ -10,7 +10,8 @@ RULE = ("records = calls through Grid.apply_as_grid_ufunc, functions decorated w
         "kind of dummy->real binding on 2-3 axis grids, widths 0..2 keyed by dummy names, rule/fill/widths/"
         "pad_before_func supplied at definition and/or call; a recording user function logs what it receives; plus "
         "inputs on wrong positions and arity mismatches; non-trivial = distinct (signature shape, binding, option "
-        "placement) classes")
+        "placement) classes"
+        ' Also: real axis names spelt like the dummy names (bound crosswise), explicit None given at call time, an earlier call of the same GridUFunc object with other options, one dummy on two real axes and other ill-posed bindings.')
 
 DUMMIES = ["p", "q", "w"]
 
